@@ -203,7 +203,7 @@ def _limit_threads() -> None:
 
 def _run_one(prop: Prop, case: Any, stats: Stats, source: str, open_keys: dict) -> Outcome | None:
     """Run a case; classify. Returns the Outcome if it is an *unlisted* violation."""
-    out = prop.run_case(case)
+    out = guarded_run(prop, case)
     stats.record(case, out, source)
     if out.ok:
         return None
@@ -211,6 +211,23 @@ def _run_one(prop: Prop, case: Any, stats: Stats, source: str, open_keys: dict) 
         stats.known[out.key] = stats.known.get(out.key, 0) + 1
         return None
     return out
+
+
+def guarded_run(prop: Prop, case: Any) -> Outcome:
+    """run_case with exception bucketing: an exception that escapes run_case and whose traceback passes through the
+    repository's kfac package was raised by the code under test on an input that is valid by construction -> violation
+    keyed by (exception type, innermost kfac frame).  Anything else is a harness error and propagates."""
+    try:
+        return prop.run_case(case)
+    except Exception as e:  # noqa: BLE001
+        root = os.path.join(os.path.abspath(REPO), 'kfac') + os.sep
+        frames = [f for f in traceback.extract_tb(e.__traceback__) if os.path.abspath(f.filename).startswith(root)]
+        if not frames or 'harness' in str(e):
+            raise
+        f = frames[-1]
+        where = f'{os.path.relpath(f.filename, os.path.abspath(REPO))}:{f.lineno} in {f.name}'
+        return violation(f'{type(e).__name__}: {e} (raised at {where} on an input that is valid by construction)',
+                         f'exception:{type(e).__name__}@{os.path.basename(f.filename)}:{f.name}')
 
 
 def _shard_worker(args) -> Stats:
@@ -406,7 +423,7 @@ def _regress_worker(pid: str) -> dict:
             for case in rc:
                 if not isinstance(case, dict):
                     continue
-                out = prop.run_case(case)
+                out = guarded_run(prop, case)
                 stats.record(case, out, 'regress')
                 if not out.ok and out.key == key:
                     stats.known[key] = stats.known.get(key, 0) + 1
@@ -517,7 +534,7 @@ def replay(pid: str, path: str) -> int:
     prop = load_prop(pid)
     open_keys, _ = load_known(pid)
     case = json.load(open(path))
-    out = prop.run_case(case)
+    out = guarded_run(prop, case)
     if out.ok:
         print(f'replay {path}: property held (nontrivial={out.nontrivial})')
         return 0
